@@ -299,7 +299,7 @@ func (x *c10Run) waitPreload() {
 	if x.preloadWant < 0 {
 		return
 	}
-	deadline := time.Now().Add(5 * time.Second)
+	deadline := time.Now().Add(1500 * time.Millisecond)
 	for time.Now().Before(deadline) {
 		if calls, _ := x.st.counters(); calls >= x.preloadWant {
 			break
